@@ -597,7 +597,7 @@ class Lower:
         var = [k for k in hk if k.get('kind') == 'VarDecl']
         if var:
             t = qt(var[0])
-            if 'exception' not in t:
+            if 'exception' not in t and 'BlochError' not in t:
                 raise Unsupported('catch of ' + t)
             used = []
             walk(hk[-1], lambda z: used.append(z) if z.get('kind') == 'DeclRefExpr' and z['referencedDecl'].get('id') == var[0].get('id') else None)
@@ -609,7 +609,12 @@ class Lower:
         self.try_label = lab
         out = [p + '{'] + self.block(ks[0], ind + 1)
         self.try_label = old
-        out += [p + '  goto %s_done;' % lab, p + '  %s: bl_exc = 0; bl_exc_line = 0; bl_exc_col = 0;' % lab]
+        only_bloch = bool(var) and 'BlochError' in qt(var[0])
+        out += [p + '  goto %s_done;' % lab, p + '  %s: ;' % lab]
+        if only_bloch:
+            # catch (BlochError): a raw C++ exception (BL_EXC_STD) is not caught here, it keeps propagating
+            out += [p + '  if (bl_exc == BL_EXC_STD) %s' % self.prop_stmt()]
+        out += [p + '  bl_exc = 0; bl_exc_line = 0; bl_exc_col = 0;']
         out += self.block(hk[-1], ind + 1)
         out += [p + '  %s_done: ;' % lab, p + '}']
         return out
